@@ -11,6 +11,13 @@ HEADERFS_INITS = [
 ]
 HEADERFS_FILES = ["headerfs/store.go", "headerfs/index.go", "headerfs/file.go"]
 
+ROOT_INITS = [
+    "github.com/lightninglabs/neutrino", "github.com/lightninglabs/neutrino/banman", "github.com/btcsuite/btcwallet/walletdb",
+    "io", "bytes", "encoding/binary", "github.com/btcsuite/btcd/wire/v2", "github.com/btcsuite/btcd/chainhash/v2",
+    "github.com/lightninglabs/neutrino/headerfs", "github.com/lightninglabs/neutrino/chainsync",
+    "github.com/lightninglabs/neutrino/query", "github.com/lightninglabs/neutrino/blockntfns",
+]
+
 COMMON_ASSUMPTIONS = [
     "SHA-256 based digests (BlockHash, DoubleHashH, ...) are modelled as injective uninterpreted functions (no collisions, no cycles); natively the real hash runs",
     "btclog logging calls are no-ops; fmt message building is concrete and never the subject",
@@ -28,13 +35,13 @@ CHECKS = {
         ],
         "groups": [
             {"name": "blockops", "pkg": "headerfs", "harness_dir": "headerfs", "harness": "VerifH_C07_(blockOps|filterOps)",
-             "transforms": HEADERFS_XF, "inits": HEADERFS_INITS, "anchored_files": HEADERFS_FILES,
+             "transforms": HEADERFS_XF, "inits": HEADERFS_INITS, "common": ["walletdb"], "anchored_files": HEADERFS_FILES,
              "params": {"ops": 2, "batch": 2}, "thorough": {"params": {"ops": 3, "batch": 2}},
              "must_reach": {"VerifH_C07_blockOps": ["append", "rollback", "reopen", "rollback-past-genesis"],
                             "VerifH_C07_filterOps": ["f-append", "f-rollback", "f-reopen"]},
              "outside": "more than ops operations per history, batches > 2, rollbacks > 3, bbolt and the OS file system"},
             {"name": "fault", "pkg": "headerfs", "harness_dir": "headerfs", "harness": "VerifH_C07_appendFault",
-             "transforms": HEADERFS_XF, "inits": HEADERFS_INITS, "anchored_files": HEADERFS_FILES,
+             "transforms": HEADERFS_XF, "inits": HEADERFS_INITS, "common": ["walletdb"], "anchored_files": HEADERFS_FILES,
              "params": {"history": 1}, "thorough": {"params": {"history": 2}},
              "must_reach": {"VerifH_C07_appendFault": ["append-failed", "no-fault-hit"]},
              "outside": "more than one injected failure per operation; failures inside rollbacks"},
@@ -47,7 +54,7 @@ CHECKS = {
         ],
         "groups": [
             {"name": "k1", "pkg": "headerfs", "harness_dir": "headerfs", "harness": "VerifH_C08_(block|filter)Crash",
-             "transforms": HEADERFS_XF, "inits": HEADERFS_INITS, "anchored_files": HEADERFS_FILES,
+             "transforms": HEADERFS_XF, "inits": HEADERFS_INITS, "common": ["walletdb"], "anchored_files": HEADERFS_FILES,
              "params": {"history": 1}, "thorough": {"params": {"history": 2}},
              "must_reach": {"VerifH_C08_blockCrash": ["crashed-at-write", "crashed-at-truncate", "crashed-at-db-commit", "no-crash"],
                             "VerifH_C08_filterCrash": ["crashed-at-write", "crashed-at-truncate", "crashed-at-db-commit", "no-crash"]},
@@ -78,6 +85,30 @@ CHECKS = {
              "params": {"threads": 3, "keys": 2, "preempt": 1, "maxcap": 2},
              "no_native_replay": "schedule-dependent counterexample",
              "outside": "more than 3 concurrent operations"},
+        ],
+    },
+    "C13": {
+        "assumptions": COMMON_ASSUMPTIONS + [
+            "time.Now() in banman/store.go is redirected (source overlay) to a harness clock returning arbitrary non-decreasing instants (seconds and nanoseconds symbolic); ban durations range over {1s, 1.5s, 2s, 24h, 3.999999999s} (>= 1s: expiry is stored in whole seconds)",
+            "walletdb.DB is an in-memory model with atomic transactions (bbolt durability is trusted)",
+            "net.ParseIP / net.SplitHostPort run natively on concrete strings (their documented contract); IPv6 networks have a non-zero first byte, IPv4 networks a 4-byte mask",
+            "*peer.Peer, connmgr and addrmgr are engine recorders (Addr/Services set by the harness, Disconnect recorded); consecutive clock readings in the enforcement harness are <= 60 s apart",
+        ],
+        "groups": [
+            {"name": "store", "pkg": "banman", "harness_dir": "banman", "common": ["walletdb"],
+             "harness": "VerifH_C13_(store|reban|expiryBound|keys|spellings)",
+             "transforms": [("banman/store.go", r"time\.Now\(\)", "vpNow()", 2)],
+             "inits": ["github.com/lightninglabs/neutrino/banman", "github.com/btcsuite/btcwallet/walletdb", "io", "bytes", "encoding/binary"],
+             "anchored_files": ["banman/store.go", "banman/codec.go", "banman/util.go"],
+             "params": {"ops": 1, "durations": 3}, "thorough": {"params": {"ops": 2, "durations": 3}},
+             "must_reach": {"VerifH_C13_store": ["ban", "unban", "reopen"], "VerifH_C13_reban": ["second-ban-live", "second-ban-lapsed"],
+                            "VerifH_C13_expiryBound": ["well-before-lapse", "after-true-expiry"]},
+             "outside": "histories longer than ops (+ the final status sweep); sub-second ban durations; masks other than the defaults"},
+            {"name": "enforce", "pkg": ".", "harness_dir": "root", "common": ["walletdb"], "harness": "VerifH_C13_(onVersion|refuseBanned)",
+             "inits": ROOT_INITS, "anchored_files": ["neutrino.go", "banman/store.go", "banman/util.go"],
+             "no_native_replay": "uses the engine's *peer.Peer / connmgr recorders, which have no native counterpart",
+             "must_reach": {"VerifH_C13_onVersion": ["services-ok", "services-missing"], "VerifH_C13_refuseBanned": ["banned-peer-refused", "clean-peer-added"]},
+             "outside": "the live connection manager and peer handshake; ban call sites in query.go/blockmanager.go are decided in C03/C06"},
         ],
     },
 }
